@@ -85,7 +85,12 @@ fn h2(conn: http::Version, req: http::Request<()>) -> Result<http::Request<()>, 
         .map(|r| r.into_parts().1)
 }
 
-const URIS: [&str; 9] = [
+const URIS: [&str; 14] = [
+    "http://test:/",
+    "http://test:99999/",
+    "https://test:/x?y",
+    "http://[::1]/",
+    "http://[::1]:/p",
     "http://example.com",
     "http://example.com/",
     "https://example.com:8443/a/b?c=d",
